@@ -118,6 +118,7 @@ class DenseNormal(ssm_impl_api.AbstractTreeNormal[DenseTreeFlatten]):
     def from_mean_and_std(cls, mean, std):
         utilities.verify_taylor_coefficient_pytree(mean)
         utilities.verify_taylor_coefficient_pytree(std)
+        utilities.verify_taylor_coefficient_pytrees_match(mean, std)
 
         tree_flatten = DenseTreeFlatten.from_example(mean)
 
